@@ -6,7 +6,7 @@ from ..framework import result, ihash
 
 ID = "C01"
 LEVEL = "exploration"
-RUNS = {"quick": 1200, "thorough": 30000}
+RUNS = {"quick": 2000, "thorough": 30000}
 RULE = ("seeded programs of 1-2 tracing threads over the real libovni: normal emits with payload 0,2..16 and random MCV/payload bytes, jumbo "
         "emits of size 0..capacity, ovni_flush, mark push/pop/set, attr calls; arbitrary 64-bit event clocks in half the runs; a jumbo filler "
         "brings the fill level to CAP - size - delta (delta in -40..+40) before the event under test so the buffer-full boundary falls at "
@@ -59,7 +59,7 @@ def gen(rng, tier, idx):
     cap = rt.CAP_SMALL if variant == "small" else rt.CAP_REAL
     nth = 2 if r.chance(20) else 1
     knobs = rtgen.base_knobs(rng.derive("knobs"))
-    g = rtgen.Prog(r, nth, cap, knobs)
+    g = rtgen.Prog(r, nth, cap, knobs, stale_pct=8)
     g.start(conformant=False)
     arbitrary_clock = r.chance(50)
 
